@@ -55,7 +55,7 @@ CHECKS["C11"] = ("exploration",
     "DESIGN.md 4 (C11)")
 
 CHECKS["C13"] = ("fault_enumeration",
-    "Virtual-clock fault injection: every expiry point (deadline between any two consecutive clock reads) of each input is enumerated; prefix/differential oracle against the untimed run; work-after-deadline counted with recording scorer, registry wrappers and applicability-analysis recorder; structural 'one work unit between two deadline checks' oracle",
+    "Virtual-clock fault injection: every expiry point (deadline between any two consecutive clock reads) of each input is enumerated; prefix/differential oracle against the untimed run; work-after-deadline counted with recording scorer, registry wrappers and applicability-analysis recorder; structural 'one work unit between two deadline checks' oracle; history clause: the untimed stream of a fresh process after ~165 timed-out runs equals that of a fresh process without them",
     "The timeout fault is injected at every possible point of the run (complete for inputs within the stated read budget, stratified beyond) including inputs with 3^n candidate sequences; each run is compared with the untimed run (prefix, best-of-prefix, exact stop at the first due check) and the work between/after checks is bounded independently of the number of sequences.",
     "Assumes the only time source is ctparse.timers.perf_counter (patched); a deadline check is a clock read not made by the timeit wrapper.",
     "DESIGN.md 4 (C13)")
